@@ -1122,6 +1122,30 @@ fn c09(tier: Tier, seed: u64) -> i32 {
 		let case = gen_conc(&mut Src::new(bytes), &tcfg);
 		exhaust_program(&e, &case, cap, want)
 	});
+	// retrying acquisitions chasing each other: small worlds of retrying collections
+	// over the same few leaves in different orders, every thread starts with one of
+	// them, and the schedule is a short motif repeated 240 times (strict alternation
+	// keeps two of them rolling back for dozens of rounds) before run-to-block
+	{
+		let mut ccfg = tiny_conc_cfg();
+		ccfg.world = WorldCfg { min_leaves: 2, max_leaves: 3, min_colls: 2, max_colls: 3, max_members: 3, kinds: vec![KindTag::Retry], p_copy_permuted: 200, p_byval: 0, p_nested: 0, p_wrap: 0, ..WorldCfg::default() };
+		ccfg.max_threads = 3;
+		ccfg.retry_all = true;
+		ccfg.p_try = 0;
+		ccfg.p_read = 50;
+		ccfg.p_scoped = 90;
+		ccfg.p_pattern_sched = 230;
+		ccfg.pattern_len = 240;
+		let n = tier.pick(20_000, 600_000);
+		ctx.search("conc-retry-chase-periodic-schedules", n, 120, |bytes, want| {
+			let case = gen_conc(&mut Src::new(bytes), &ccfg);
+			let mut rep = eval_conc_case(&e, &case, want);
+			if rep.nontrivial {
+				rep.labels.push("retry.rolled_back".into());
+			}
+			rep
+		});
+	}
 	// SEQ: every blocking request of the thread under test meets a holder that
 	// finishes only once it is waited for
 	{
@@ -2036,6 +2060,10 @@ pub fn conc_profile(prop: &str) -> Option<ConcCfg> {
 			cfg.retry_first = true;
 			cfg.world.min_colls = 2;
 			cfg.p_try = 20;
+			// long periodic schedules: two retrying acquisitions chase each other
+			// for dozens of rounds before the run-to-block suffix lets them finish
+			cfg.p_pattern_sched = 70;
+			cfg.pattern_len = 240;
 			Some(cfg)
 		}
 		"C17" => {
